@@ -5,9 +5,15 @@
 use crate::client::handle_remote::FatalError;
 use crate::client::{MuxStream, StreamCommand};
 use bytes::Bytes;
+#[cfg(not(penguin_rs_verif))]
 use tokio::net::TcpListener;
+#[cfg(penguin_rs_verif)]
+use penguin_simnet::TcpListener;
 #[cfg(unix)]
+#[cfg(not(penguin_rs_verif))]
 use tokio::net::UnixListener;
+#[cfg(penguin_rs_verif)]
+use penguin_simnet::UnixListener;
 use tokio::sync::{mpsc, oneshot};
 use tracing::info;
 
